@@ -1,0 +1,95 @@
+//go:build verif
+
+// Verification hooks (add-only, compiled only with -tags verif). They expose
+// the unexported superblob writer, the code directory writer and parser and
+// the signature blob parser to the out-of-tree correspondence harness in
+// /verif (format unit fmtmacho); no existing behaviour is changed.
+package csblob
+
+import "crypto"
+
+// VerifBlobItem is one superblob entry with its raw data (blob header included).
+type VerifBlobItem struct {
+	IType, Magic uint32
+	Data         []byte
+}
+
+// VerifMarshalSuperBlob calls marshalSuperBlob.
+func VerifMarshalSuperBlob(magic uint32, items []VerifBlobItem) []byte {
+	its := make([]superItem, len(items))
+	for i, it := range items {
+		its[i] = superItem{magic: csMagic(it.Magic), itype: it.IType, data: it.Data}
+	}
+	return marshalSuperBlob(csMagic(magic), its)
+}
+
+// VerifNewSuperItem calls newSuperItem.
+func VerifNewSuperItem(magic uint32, payload []byte) VerifBlobItem {
+	it := newSuperItem(csMagic(magic), payload)
+	return VerifBlobItem{IType: it.itype, Magic: uint32(it.magic), Data: it.data}
+}
+
+// VerifParseSuperItems calls parseSuper and returns the items with their data.
+func VerifParseSuperItems(blob []byte) (uint32, []VerifBlobItem, error) {
+	magic, items, err := parseSuper(blob)
+	if err != nil {
+		return 0, nil, err
+	}
+	out := make([]VerifBlobItem, len(items))
+	for i, it := range items {
+		out[i] = VerifBlobItem{IType: it.itype, Magic: uint32(it.magic), Data: it.data}
+	}
+	return uint32(magic), out, nil
+}
+
+// VerifCodeDirParams carries the inputs of newCodeDirectory.
+type VerifCodeDirParams struct {
+	Flags            uint32
+	SigningIdentity  string
+	TeamIdentifier   string
+	ExecSegmentBase  int64
+	ExecSegmentLimit int64
+	ExecSegmentFlags int64
+	Specials         [][]byte
+	CodeSlots        []byte
+	CodeSlotCount    uint32
+	HashFunc         crypto.Hash
+	CodeLimit        int64
+	SinglePage       bool
+}
+
+// VerifNewCodeDirectory calls newCodeDirectory.
+func VerifNewCodeDirectory(p VerifCodeDirParams) (raw, digest []byte, err error) {
+	res, err := newCodeDirectory(codeDirParams{
+		SignatureParams: &SignatureParams{
+			Flags:            SignatureFlags(p.Flags),
+			SigningIdentity:  p.SigningIdentity,
+			TeamIdentifier:   p.TeamIdentifier,
+			ExecSegmentBase:  p.ExecSegmentBase,
+			ExecSegmentLimit: p.ExecSegmentLimit,
+			ExecSegmentFlags: p.ExecSegmentFlags,
+		},
+		Specials:      p.Specials,
+		CodeSlots:     p.CodeSlots,
+		CodeSlotCount: p.CodeSlotCount,
+		HashFunc:      p.HashFunc,
+		CodeLimit:     p.CodeLimit,
+		SinglePage:    p.SinglePage,
+	})
+	return res.Raw, res.Digest, err
+}
+
+// VerifParseCodeDirectory calls parseCodeDirectory.
+func VerifParseCodeDirectory(blob []byte, itype uint32) (*CodeDirectory, error) {
+	return parseCodeDirectory(blob, itype)
+}
+
+// VerifParseSignature calls parseSignature.
+func VerifParseSignature(blob []byte) (*SigBlob, error) {
+	return parseSignature(blob)
+}
+
+// VerifBestDir calls SigBlob.bestDir.
+func VerifBestDir(s *SigBlob) *CodeDirectory {
+	return s.bestDir()
+}
